@@ -40,9 +40,9 @@ theorem WF.step {e : Emu} (h : WF e) {ti : Nat} {t : Thread} (ht : e.threads[ti]
     cases hs with
     | keep h1 h2 => exact (hok.set_other ht h1 h2).flush
     | update l thsX hag hm hph =>
-      have hch := hok.vals.chans
+      obtain ⟨vn, vp, vt, vr, va, hch⟩ := hok.vals.clean
       exact cpuOK_after_update (c := { c with threads := l })
-        ⟨hch.nrun, hch.pid, hch.tid, hch.thrun, hch.thact⟩ hok.gidx hag hm hph
+        ⟨vn, vp, vt, vr, va, ⟨hch.nrun, hch.pid, hch.tid, hch.thrun, hch.thact⟩⟩ hok.gidx hag hm hph
 
 
 /-! ### pause / resume / cool / warm -/
@@ -52,20 +52,20 @@ theorem Emu.setThread_eq (e : Emu) {t : Thread} {ti : Nat} (hg : t.gindex = ti) 
   unfold Emu.setThread Emu.withThread; rw [hg]
 
 theorem Thread.setState_ok {n g : Nat} {t : Thread} (h : ThreadOK n g t) {ci : Nat} (hcpu : t.cpu = some ci)
-    {st : ThState} (hne : t.state ≠ st) : t.setState st = .ok (t.withState st) := by
-  rw [Thread.setState_eq h.chState h.chTid]
+    {st : ThState} (hne : t.state ≠ st) (hst : st ≠ .unknown) : t.setState st = .ok (t.withState st) := by
+  rw [Thread.setState_eq h.chState h.chTid hst]
   simp only [hcpu, hne, Option.isNone_some, Bool.false_eq_true, if_false]
 
 theorem preThreadChange_eq {e : Emu} (h : WF e) {ti : Nat} {t : Thread} (ht : e.threads[ti]? = some t)
     (ok : ThState → Bool) (st : ThState) {ci : Nat} {c : Cpu} (hcpu : t.cpu = some ci)
-    (hc : e.cpus[ci]? = some c) (hok : ok t.state = true) (hne : t.state ≠ st) :
+    (hc : e.cpus[ci]? = some c) (hok : ok t.state = true) (hne : t.state ≠ st) (hl1 : st ≠ .unknown) :
     preThreadChange e ti ok st =
       if overGuard (e.threads.set ti (t.withState st)) c.threads c.virt then .error .oversub
       else .ok ((e.withThread ti (t.withState st)).updCpu ci c c.threads) := by
   have hth := h.th ti t ht
   have hcp := h.cpu ci c hc
   unfold preThreadChange
-  simp only [ht, hok, Thread.setState_ok hth hcpu hne]
+  simp only [ht, hok, Thread.setState_ok hth hcpu hne hl1]
   have h1 : (t.withState st).cpu = some ci := hcpu
   have h2 : e.setThread (t.withState st) = e.withThread ti (t.withState st) :=
     Emu.setThread_eq e hth.gidx
@@ -73,7 +73,7 @@ theorem preThreadChange_eq {e : Emu} (h : WF e) {ti : Nat} {t : Thread} (ht : e.
     | some ci => cpuRefresh (e.setThread (t.withState st)) ci
     | _ => throw Err.noCpu) = _
   rw [h1, h2]
-  exact cpuRefresh_eq (e := e.withThread ti (t.withState st)) hc hcp.gidx hcp.vals.chans
+  exact cpuRefresh_eq (e := e.withThread ti (t.withState st)) hc hcp.gidx hcp.vals.clean
 
 theorem overGuard_false {ths : List Thread} {l : List Nat} {virt : Bool}
     (h : overGuard ths l virt = false) (hv : virt = false) : (runOf (boundOf ths l)).length ≤ 1 := by
@@ -91,7 +91,9 @@ theorem ThreadOK.withState_flush {n g : Nat} {t : Thread} (h : ThreadOK n g t) {
     (hcpu : t.cpu = some ci) {st : ThState} (hl1 : st ≠ .unknown) (hl2 : st ≠ .dead) :
     ThreadOK n g (t.withState st).flush :=
   { gidx := h.gidx
-    chState := h.chState.setv_flush _
+    chState := by
+      show ChanOK _ (stateVal st) false
+      rw [stateVal_of_ne hl1]; exact h.chState.setv_flush _
     chTid := h.chTid.setv_flush _
     chCpu := h.chCpu.flush
     cpuIff := by
@@ -171,7 +173,7 @@ theorem preThreadExecute_eq {e : Emu} (h : WF e) {ti : Nat} {t : Thread} (ht : e
   have hl : ¬ payload.length < 4 := by omega
   simp only [ht, hst, hl, hci, Thread.setCpu_eq hth.chCpu, hnone]
   have h1 : (t.withCpu (some ci)).setState .running = .ok (t.executed ci) := by
-    rw [Thread.setState_eq (t := t.withCpu (some ci)) hth.chState hth.chTid]
+    rw [Thread.setState_eq (t := t.withCpu (some ci)) hth.chState hth.chTid (by decide)]
     have : (t.withCpu (some ci)).state ≠ .running := hst
     have h' : (t.withCpu (some ci)).cpu = some ci := rfl
     simp only [h', this, Option.isNone_some, Bool.false_eq_true, if_false]
@@ -180,7 +182,7 @@ theorem preThreadExecute_eq {e : Emu} (h : WF e) {ti : Nat} {t : Thread} (ht : e
   rw [h1]
   show cpuAddThread (e.setThread (t.executed ci)) ci ti = _
   rw [Emu.setThread_eq e (show (t.executed ci).gindex = ti from hth.gidx)]
-  rw [cpuAddThread_eq (e := e.withThread ti (t.executed ci)) hc hcp.gidx hcp.vals.chans ti]
+  rw [cpuAddThread_eq (e := e.withThread ti (t.executed ci)) hc hcp.gidx hcp.vals.clean ti]
   simp only [hnotin, Bool.false_eq_true, if_false]
   rfl
 
@@ -265,10 +267,10 @@ theorem preThreadEnd_eq {e : Emu} (h : WF e) {ti : Nat} {t : Thread} (ht : e.thr
   have hg : ¬ ((t.state ≠ .running && t.state ≠ .cooling) = true) := by
     rcases hst with h' | h' <;> rw [h'] <;> decide
   unfold preThreadEnd
-  simp only [ht, hg, Bool.false_eq_true, if_false, Thread.setState_ok hth hcpu hne]
+  simp only [ht, hg, Bool.false_eq_true, if_false, Thread.setState_ok hth hcpu hne (by decide)]
   simp only [ok_bind, show (t.withState .dead).cpu = some ci from hcpu]
   rw [Emu.setThread_eq e (show (t.withState .dead).gindex = ti from hth.gidx)]
-  rw [cpuRemoveThread_eq (e := e.withThread ti (t.withState .dead)) hc hcp.gidx hcp.vals.chans ti]
+  rw [cpuRemoveThread_eq (e := e.withThread ti (t.withState .dead)) hc hcp.gidx hcp.vals.clean ti]
   simp only [hin, Bool.not_true, Bool.false_eq_true, if_false]
   have hu : (t.withState .dead).unsetCpu = .ok t.ended := by
     rw [Thread.unsetCpu_eq (t := t.withState .dead) hth.chCpu]
@@ -418,7 +420,7 @@ theorem migrate_eq {e : Emu} (h : WF e) {ti : Nat} {t : Thread} (ht : e.threads[
     have := hpt.mem.not_mem ht (by rw [hcpu]; intro h'; exact hne (Option.some.inj h'))
     simpa using this
   unfold migrate
-  rw [cpuRemoveThread_eq hcf hpf.gidx hpf.vals.chans ti]
+  rw [cpuRemoveThread_eq hcf hpf.gidx hpf.vals.clean ti]
   simp only [hin, Bool.not_true, Bool.false_eq_true, if_false]
   by_cases ho1 : overGuard e.threads (cf.threads.erase ti) cf.virt = true
   · rw [if_pos ho1, if_pos ho1]; rfl
@@ -427,7 +429,7 @@ theorem migrate_eq {e : Emu} (h : WF e) {ti : Nat} {t : Thread} (ht : e.threads[
     have hct1 : (e.updCpu fr cf (cf.threads.erase ti)).cpus[to]? = some ct := by
       show (e.cpus.set fr _)[to]? = some ct
       rw [List.getElem?_set_ne hne]; exact hct
-    rw [cpuAddThread_eq (e := e.updCpu fr cf (cf.threads.erase ti)) hct1 hpt.gidx hpt.vals.chans ti]
+    rw [cpuAddThread_eq (e := e.updCpu fr cf (cf.threads.erase ti)) hct1 hpt.gidx hpt.vals.clean ti]
     simp only [hnotin, Bool.false_eq_true, if_false]
     show (if overGuard e.threads (ct.threads ++ [ti]) ct.virt = true then _ else _) >>= _ = _
     by_cases ho2 : overGuard e.threads (ct.threads ++ [ti]) ct.virt = true
